@@ -39,6 +39,9 @@ def check(ck: Checker) -> None:
     _r4.tree_load_rejects_only_nonlist(ck, "C20.listing")
     _r4.trie_setitem_always_writes(ck, "C20.trie")
     _r4.hashinfo_from_dict_strict(ck, "C20.hashinfo")
+    from . import round7 as _r7
+
+    _r7.from_list_splits_raw_relpath(ck, "C20.listing")
 
 
 
